@@ -82,12 +82,12 @@ Proof. intros (hl & nl & A & B & _ & _ & _ & C & _). now exists hl, nl. Qed.
 
 (* one method through lh *)
 Lemma layer_hop_touch s lh fl key d o :
-  LayerAt s lh fl key d -> op_handle_of o = Some lh -> WF s -> WfOps.wf_op s o = true ->
+  LayerAt s lh fl key d -> op_handle_of o = Some lh -> WF s -> WfOps.wf_op_ord s o = true ->
   LTouch lh fl s (fst (m_step s o)) /\ WF (fst (m_step s o)).
 Proof.
   intros HL Ho W Hwf. destruct (layer_handle s lh fl key d HL) as (hl & nl & Hh & Hf & Hn). subst fl.
   destruct (hop_eff s o lh hl nl Ho Hh Hn) as (h' & E & _).
-  split; [exact (LTouch_of_hop lh (href hl) s _ hl h' E eq_refl) | now apply WF_step].
+  split; [exact (LTouch_of_hop lh (href hl) s _ hl h' E eq_refl) | now apply WF_step_ord].
 Qed.
 
 (* io.Copy's loop: any file size; the base is only read, the layer only written through lh *)
